@@ -12,6 +12,8 @@ package main
 //     known_findings.json; the rest are violations.
 
 import (
+	"crypto/sha256"
+	"encoding/json"
 	"fmt"
 	"math/rand"
 	"strconv"
@@ -51,6 +53,78 @@ type SeqCheck struct {
 	Proc *ProcCheck
 	// extra drivers contributing observations
 	Extra func(e *Env, cov map[string]any) ([]*Obs, error)
+}
+
+// judgeAcc judges observations in batches and keeps only what the report needs
+// (the failing records and coverage counters): a thorough run makes hundreds of
+// thousands of records, far too many to hold until the end.
+type judgeAcc struct {
+	e       *Env
+	prop    string
+	pending []*Obs
+	fails   []Failure
+	records int
+	shards  int
+	total   int
+	hist    map[string]map[string]int
+	seen    map[[32]byte]bool
+	samples []any
+}
+
+func newJudgeAcc(e *Env, prop string) *judgeAcc {
+	return &judgeAcc{e: e, prop: prop, hist: map[string]map[string]int{}, seen: map[[32]byte]bool{}}
+}
+
+const judgeBatch = 30000
+
+func (a *judgeAcc) add(obs []*Obs) error {
+	a.pending = append(a.pending, obs...)
+	if len(a.pending) >= judgeBatch {
+		return a.flush()
+	}
+	return nil
+}
+
+func (a *judgeAcc) flush() error {
+	if len(a.pending) == 0 {
+		return nil
+	}
+	obs := a.pending
+	a.pending = nil
+	fails, js, err := a.e.judge(a.prop, obs)
+	if err != nil {
+		return err
+	}
+	a.fails = append(a.fails, fails...)
+	a.records += js.Records
+	a.shards += js.Shards
+	a.total += len(obs)
+	for _, o := range obs {
+		n := o.Cmd.name()
+		if a.hist[n] == nil {
+			a.hist[n] = map[string]int{}
+		}
+		if o.Exit == 0 {
+			a.hist[n]["accepted"]++
+		} else {
+			a.hist[n]["rejected"]++
+		}
+		changed := fmt.Sprint(o.Facts["log_bytes_same"]) == "false"
+		if !changed && o.Exit == 0 {
+			continue
+		}
+		pre, _ := json.Marshal(stripTimes(o.Pre))
+		c, _ := json.Marshal(o.Cmd)
+		key := sha256.Sum256(append(append(pre, '|'), c...))
+		if a.seen[key] {
+			continue
+		}
+		a.seen[key] = true
+		if len(a.samples) < 3 {
+			a.samples = append(a.samples, map[string]any{"history": o.hist, "cmd": o.Cmd, "exit": o.Exit, "reply": o.Reply})
+		}
+	}
+	return nil
 }
 
 // the further families are meant to be small; a larger one is sampled in the quick tier
@@ -97,6 +171,7 @@ func (c *SeqCheck) Run(e *Env) (*Outcome, *Evidence, error) {
 		gen = c.GenThorough
 	}
 	var obs []*Obs
+	acc := newJudgeAcc(e, c.Prop)
 	var histories int
 	gens := []SeqModel{}
 	if gen.Name != "" {
@@ -152,6 +227,14 @@ func (c *SeqCheck) Run(e *Env) (*Outcome, *Evidence, error) {
 			return nil, nil, err
 		}
 		obs = append(obs, o...)
+		if len(obs) >= judgeBatch {
+			lap("drive_e1")
+			if err := acc.add(obs); err != nil {
+				return nil, nil, err
+			}
+			obs = nil
+			lap("tlc_judge")
+		}
 		histories += ds.Histories
 		lap("drive_e1")
 		key := "e1"
@@ -190,6 +273,14 @@ func (c *SeqCheck) Run(e *Env) (*Outcome, *Evidence, error) {
 			return nil, nil, err
 		}
 		obs = append(obs, o...)
+		if len(obs) >= judgeBatch {
+			lap("drive_other")
+			if err := acc.add(obs); err != nil {
+				return nil, nil, err
+			}
+			obs = nil
+			lap("tlc_judge")
+		}
 		histories += ds.Histories
 		cov[tag] = map[string]any{"model": craft.Name, "bounds": craft.bounds(), "crafted_stores": len(stores), "steps": len(o), "wall_s": ds.Wall}
 	}
@@ -238,6 +329,14 @@ func (c *SeqCheck) Run(e *Env) (*Outcome, *Evidence, error) {
 			return nil, nil, err
 		}
 		obs = append(obs, o...)
+		if len(obs) >= judgeBatch {
+			lap("drive_other")
+			if err := acc.add(obs); err != nil {
+				return nil, nil, err
+			}
+			obs = nil
+			lap("tlc_judge")
+		}
 		histories += ds.Histories
 		cov["e2"] = map[string]any{"model": c.Sim.Name, "walks": len(walks), "depth": c.Sim.Depth, "steps": len(o), "wall_s": ds.Wall}
 	}
@@ -248,6 +347,14 @@ func (c *SeqCheck) Run(e *Env) (*Outcome, *Evidence, error) {
 			return nil, nil, err
 		}
 		obs = append(obs, o...)
+		if len(obs) >= judgeBatch {
+			lap("drive_other")
+			if err := acc.add(obs); err != nil {
+				return nil, nil, err
+			}
+			obs = nil
+			lap("tlc_judge")
+		}
 		histories += ds.Histories
 		cov["probe_steps"] = len(o)
 	}
@@ -258,6 +365,14 @@ func (c *SeqCheck) Run(e *Env) (*Outcome, *Evidence, error) {
 			return nil, nil, err
 		}
 		obs = append(obs, o...)
+		if len(obs) >= judgeBatch {
+			lap("drive_other")
+			if err := acc.add(obs); err != nil {
+				return nil, nil, err
+			}
+			obs = nil
+			lap("tlc_judge")
+		}
 		histories += len(o)
 		cov["concurrent"] = pc
 	}
@@ -267,44 +382,42 @@ func (c *SeqCheck) Run(e *Env) (*Outcome, *Evidence, error) {
 			return nil, nil, err
 		}
 		obs = append(obs, o...)
+		if len(obs) >= judgeBatch {
+			lap("drive_other")
+			if err := acc.add(obs); err != nil {
+				return nil, nil, err
+			}
+			obs = nil
+			lap("tlc_judge")
+		}
 		cov["extra_steps"] = len(o)
 	}
 
-	// 4. judge
+	// 4. judge (what is still pending)
 	lap("drive_other")
-	fails, js, err := e.judge(c.Prop, obs)
-	lap("tlc_judge")
-	if err != nil {
+	if err := acc.add(obs); err != nil {
 		return nil, nil, err
 	}
+	obs = nil
+	if err := acc.flush(); err != nil {
+		return nil, nil, err
+	}
+	lap("tlc_judge")
+	fails := acc.fails
 	findings, err := loadFindings()
 	if err != nil {
 		return nil, nil, err
 	}
 	out := classify(c.Prop, fails, findings)
-
-	hist := map[string]map[string]int{}
-	for _, o := range obs {
-		n := o.Cmd.name()
-		if hist[n] == nil {
-			hist[n] = map[string]int{}
-		}
-		if o.Exit == 0 {
-			hist[n]["accepted"]++
-		} else {
-			hist[n]["rejected"]++
-		}
-	}
-	cov["command_histogram"] = hist // vacuity guard: which commands the judged steps exercised, accepted / rejected
-	nt, samples := nontrivial(obs)
+	cov["command_histogram"] = acc.hist // vacuity guard: which commands the judged steps exercised, accepted / rejected
 	cov["traces_validated_against_impl"] = histories
-	cov["evaluations"] = len(obs)
-	cov["distinct_nontrivial"] = nt
+	cov["evaluations"] = acc.total
+	cov["distinct_nontrivial"] = len(acc.seen)
 	cov["rule"] = "E1: every command of the TLC-printed alphabet from every (quick: sampled) reachable state of the bounded as-is model, executed on the real binary; E2: TLC -simulate walks executed step by step. A case is non-trivial when the command changed the log or was rejected; distinct by (abstract pre-state, command)."
-	cov["samples"] = samples
-	cov["judged_records"] = js.Records
-	cov["judge_shards"] = js.Shards
-	cov["invocations"] = fmt.Sprint("~", len(obs)*8)
+	cov["samples"] = acc.samples
+	cov["judged_records"] = acc.records
+	cov["judge_shards"] = acc.shards
+	cov["invocations"] = fmt.Sprint("~", acc.total*8)
 	level := c.Level
 	if level == "" {
 		level = "model_checking"
